@@ -22,6 +22,12 @@ is scheduling glue that decomposes into those ops between the `arrive` and the `
                                 free (and the connection is not closing) and awaits `_perform_message_callback`
   open <gate>                   the driving task opens a gate
   close <conn>                  the driving task awaits `connection.disconnect()`
+  connect <conn>                a NEW connection (r<k>) comes about: the driving task runs the real accept path
+                                (`on_peer_accepted`: registered, CONNECTED, PeerInit, ESTABLISHED); its reader task is
+                                created and runs its first step in the next loop iteration.  For the model this is
+                                `connState c false` (the connection object is not CLOSING / CLOSED); refused (`bad-op`) when the
+                                connection exists already; `msg` / `feed` / `close` on a connection that does not exist are
+                                refused too
   cancelfut <tag> | canceltask <tag>      canceltask on an `execute` that is still suspended in `send`: the
                                 CancelledError is thrown into `send` when the task next runs (modes 2,3: its
                                 already scheduled continuation; mode 4: a wake-up scheduled now) = `sendFails k true`
@@ -29,7 +35,8 @@ is scheduling glue that decomposes into those ops between the `arrive` and the `
                                 the given waiters fire (last thing of the iteration, when they were armed before it);
                                 the next iteration runs up to the driving task
   matcher := <s|p> <msgcls> <peer|-> <n> (<field> <exp>)*     exp := cN | c<k> | pT | pF | pN | pnn | pge<k> | peq<k>
-  conn := s | pN | p<k> | q<k>  (q<k>: a second connection of user k)      val := N | <k>
+  conn := s | pN | p<k> | q<k> | r<k>  (q<k>: a second connection of user k; r<k>: a third one, which does not exist
+                                before its `connect`)      val := N | <k>
   prog := <nacts> <act>*        the program of one `MessageReceivedEvent` listener for this message
   act  := sleep <k> | gate <g> | close <conn> | raw <tag> <matcher> | wait <tag> <matcher> | exec <tag> <mode> <matcher>
         | nwait <tag> <matcher> | nexec <tag> <matcher>        (request awaited inline by the listener)
@@ -61,6 +68,7 @@ inductive Item
   | failT (k : Nat)
   | abortT (k : Nat)           -- CancelledError delivered to a task that waits in `send` (mode 4)
   | reader (c : Nat)           -- the reader task of connection `c` wakes up (its stream got data)
+  | readerStart (c : Nat)      -- first step of the reader task of a connection that has just been established
   | hcont (i : Nat)            -- the suspended handler of call `i` resumes (`sleep(0)` / gate)
 
 /-- one call of `_perform_message_callback`: the listeners' programs still to run -/
@@ -84,6 +92,7 @@ structure DS where
   hruns : List HRun := []      -- index = call number (`State.hs`)
   inbox : List (Nat × Msg × List (List Act)) := []   -- (connection, message, programs), stream order
   parked : List Nat := [0, 1, 2, 3, 4, 5]   -- connections whose reader task waits for data
+  opened : List Nat := [0, 1, 2, 3, 4, 5]   -- connection objects that exist (6, 7 = r0, r1 only after `connect`)
   gatesOpen : List Nat := []
   gateWait : List (Nat × Nat) := []   -- (gate, call) in the order the handlers reached the gate
 
@@ -258,6 +267,7 @@ def runItem (d : DS) : Item → DS
     | some ((μ, progs), rest) =>
       let d := { d with inbox := rest }
       if d.s.closing.contains c then d else runJob FUEL d (.deliver c μ progs false)
+  | .readerStart c => runJob FUEL d (.readerLoop c)      -- connection.py:326-337: `while not self._is_closing` …
   | .hcont i => runJob FUEL d (.handler i)
 
 /-- run `n` items from the head of the queue -/
@@ -339,6 +349,7 @@ def parseConn (t : String) : Option (Nat × Conn) :=
   | ['p', 'N'] => some (1, .peer none)
   | 'p' :: cs => (num cs).bind fun n => if n < 2 then some (2 + n, .peer (some n)) else none
   | 'q' :: cs => (num cs).bind fun n => if n < 2 then some (4 + n, .peer (some n)) else none
+  | 'r' :: cs => (num cs).bind fun n => if n < 2 then some (6 + n, .peer (some n)) else none
   | _ => none
 
 def parseAct : List String → Option (Act × List String)
@@ -434,13 +445,15 @@ def connName : Nat → String
   | 2 => "p0"
   | 3 => "p1"
   | 4 => "q0"
-  | _ => "q1"
+  | 5 => "q1"
+  | 6 => "r0"
+  | _ => "r1"
 
 def snapshot (d : DS) : String :=
   let tw := d.tags.zip d.s.ws
   let order := (tw.filter (·.2.listed)).map (toString ·.1)
   let ents := (tw.map fun (t, w) => (t, s!"{t}:{showF w.fut}:{showO w.out}")).foldl (fun acc x => insertSorted x acc) []
-  let closing := ([0, 1, 2, 3, 4, 5].filter d.s.closing.contains).map connName
+  let closing := ([0, 1, 2, 3, 4, 5, 6, 7].filter d.s.closing.contains).map connName
   let calls := d.s.hs.map fun hd => if hd.done then "d" else "r"
   s!"n={d.s.nmsg} e={d.s.err} order={",".intercalate order} c={",".intercalate closing} h={"".intercalate calls} | {" ".intercalate (ents.map (·.2))}"
 
@@ -463,13 +476,14 @@ def handle (d : DS) (line : String) : DS × String :=
   | "msg" :: rest =>
     match parseMsg rest with
     | some (c, μ, progs) =>
-      if progs.any (·.any suspends) then (d, "bad-op")
+      if progs.any (·.any suspends) || !d.opened.contains c then (d, "bad-op")
       else if d.s.closing.contains c then (d, snapshot d)
       else let d := runJob FUEL d (.deliver c μ progs true); (d, snapshot d)
     | none => (d, "bad-op")
   | "feed" :: rest =>
     match parseMsg rest with
     | some (c, μ, progs) =>
+      if !d.opened.contains c then (d, "bad-op") else
       let d := { d with inbox := d.inbox ++ [(c, μ, progs)] }
       let d := if d.parked.contains c then { d with parked := d.parked.erase c, rq := d.rq ++ [.reader c] } else d
       (d, snapshot d)
@@ -478,8 +492,18 @@ def handle (d : DS) (line : String) : DS × String :=
     -- the driving task itself awaits `connection.disconnect()`
     match parseConn c with
     | some (cid, _) =>
+      if !d.opened.contains cid then (d, "bad-op") else
       let d := if d.s.closing.contains cid then d else prim d (.connState cid true)
       (d, snapshot d)
+    | none => (d, "bad-op")
+  | ["connect", c] =>
+    match parseConn c with
+    | some (cid, _) =>
+      if d.opened.contains cid || cid < 6 then (d, "bad-op")
+      else
+        let d := prim d (.connState cid false)
+        let d := { d with opened := cid :: d.opened, rq := d.rq ++ [.readerStart cid] }
+        (d, snapshot d)
     | none => (d, "bad-op")
   | ["open", g] =>
     match g.toNat? with
